@@ -121,7 +121,11 @@ class FileDumper(DumperBase):
         # Finalise
         filename = temp_file.name
         temp_file.close()
-        self.write_file_to_output(filename, resource.res.source)
+        path = resource.res.source
+        if self.resource_hash and self.add_filehash_to_path:
+            # the hash was inserted into the descriptor's path: write the file where the descriptor says
+            path = resource_descriptor['path']
+        self.write_file_to_output(filename, path)
         os.unlink(filename)
 
     def process_resource(self, resource: ResourceWrapper):
